@@ -325,8 +325,25 @@ pub extern "C" fn on_alarm(_s: i32) {
             crate::raw::kill(h[0].as_i64().unwrap() as i32, 9);
         }
     }
+    // The library blocked reading a pipe whose writing end THIS process holds itself (a descriptor the library lost track
+    // of): end-of-file can never come, whatever the children do.  Record that, and close those ends so that the call
+    // returns and the run can go on.
+    let mut self_deadlock = false;
+    if blocked <= -1000 && blocked > -2000 {
+        let rino = pipe_ino_of(me, -1000 - blocked);
+        if rino != 0 {
+            for e in fd_table() {
+                let (fd, ino, acc) = (e[0].as_i64().unwrap_or(-1), e[1].as_i64().unwrap_or(0), e[2].as_i64().unwrap_or(0));
+                if ino == rino && acc == 1 && fd >= 0 {
+                    self_deadlock = true;
+                    unsafe { crate::raw::close(fd as i32) };
+                }
+            }
+        }
+    }
     unsafe {
-        (*std::ptr::addr_of_mut!(WATCHDOG)).push(json!({"e":"watchdog","holders":holders,"parent_waits":parent_waits,"parent_io":parent_io}).to_string());
+        (*std::ptr::addr_of_mut!(WATCHDOG)).push(json!({"e":"watchdog","holders":holders,"parent_waits":parent_waits,"parent_io":parent_io,
+            "self_deadlock":self_deadlock}).to_string());
         slog::RECORDING = was_recording;
         slog::BLOCKED_IN.store(blocked, std::sync::atomic::Ordering::SeqCst);
     }
